@@ -15,7 +15,7 @@ TEXT = ("Ordering (must-precede / dominance) rules that replace crash-point enum
         "backends (propagated with `?`, returned, matched, or tested with is_ok for meld's per-item copies). O5: each "
         "meld write copies one source item (key and bytes derive from the same element). Together with C02 (blocks "
         "whose dependencies did not arrive are ignored) this is the whole atomicity argument for commit; does not "
-        "decide byte-identity of a retry after the second write failed. O6: a raw writer (pack writer, raw item writer) reports success only on paths through its adapter write; the accepted bypasses are `nothing staged` and a memo filled exclusively behind the success edge of that write.")
+        "decide byte-identity of a retry after the second write failed. O6: a raw writer (pack writer, raw item writer) reports success only on paths through its adapter write; the accepted bypasses are `nothing staged` and a memo filled exclusively behind the success edge of that write. O7: every atomic flag of the replica that commit changes is written again on every path to a return, error exits included.")
 TECHNIQUE = 'static analysis over rustc MIR: must-precede (success-edge dominance) of pack write, block write and in-memory state changes; dropped-Result detection; per-item provenance of meld copies'
 TRUSTED = ["rustc nightly MIR", "single-item adapter writes are atomic (the property's assumption)", "C02 gating of incomplete blocks"]
 
@@ -191,6 +191,31 @@ def run(facts, res):
                               "%s reports success without passing its adapter write under %s: after a failed write the retry is answered Ok although "
                               "nothing durable was written" % (w.path, extra[:2]), w.loc(ln6))
     res.floor("O6", "success returns of raw writers examined", n6, 2)
+
+    # ------------------------------------------------------------------ O7 commit leaves no latch behind
+    # "After a failed commit ... a retry yields the same durable result": whatever commit sets on the replica before its writes (an
+    # in-progress flag, a counter) is reset on every way out, the error exits included. Checked for atomics and plain fields of self
+    # written with a constant before the first raw write: each such write is followed, on every path to a return, by a write of the
+    # same field (the reset).
+    res.rule("O7", "commit sets no flag on the replica that an error exit leaves set")
+    n7 = 0
+    rets7 = [blk.idx for blk in c.blocks if not blk.cleanup and blk.term.kind == "return"]
+    latch = []
+    for bi, t in c.calls():
+        if t.callee is not None and "sync::atomic" in t.callee.path and t.callee.name in ("swap", "store", "fetch_or", "fetch_and", "compare_exchange", "fetch_add", "fetch_sub") and t.args:
+            fp_ = field_path(arg_term(c, t, 0, 8))[0]
+            if fp_:
+                latch.append((bi, t, fp_[0]))
+    for bi, t, fld in latch:
+        n7 += 1
+        resets = {bj for bj, tj, f2 in latch if f2 == fld and bj != bi}
+        leaks = [r_ for r_ in rets7 if cfg.reaches(bi, r_, avoid=resets)] if not (t.callee.name == "store" and t.args[1:] and t.args[1].is_const() and t.args[1].j.get("bool") is False) else []
+        res.instance("O7", "commit: %s on self.%s is reset on every way out: %s" % (t.callee.name, fld, not leaks), c.loc(t.line))
+        if leaks:
+            res.violation("O7", "commit|latch-left-set:%s" % fld,
+                          "commit changes self.%s (%s) and can return (%d return path(s), error exits included) without writing it again: after a failed "
+                          "write every later commit sees the flag of the failed one" % (fld, t.callee.name, len(leaks)), c.loc(t.line))
+    res.instance("O7", "commit: %d atomic flag write(s) on the replica examined" % n7, c.loc())
 
     # ------------------------------------------------------------------ O3
     if len(block_sites) == 1:
